@@ -116,7 +116,11 @@ def _sized(t: Tally, entry, kind, data, r, k, case, progress=False):
                 from mc.checks.c02 import _file_family
                 src = _file_family(kind, data)
             else:
-                src = data if kind == "bytes" else CountingBytesIO(data)
+                if kind == "raw-packet-object":
+                    from space_packet_parser.packets import RawPacketData
+                    src = RawPacketData(data)     # the library's own bytes subclass as a byte source: bytes like any other
+                else:
+                    src = data if kind == "bytes" else CountingBytesIO(data)
             g = _make_gen(entry, src, r, k, progress)
             items, end = pull(g, horizon=len(data) // 7 + 2)
             got = [_raw(entry, i) for i in items]
@@ -208,6 +212,7 @@ def _task_streams(task):
                 for cut in range(L + 1):
                     data = stream[:cut]
                     _sized(t, entry, "bytes", data, None, k, {**case, "cut": cut})
+                    _sized(t, entry, "raw-packet-object", data, None, k, {**case, "cut": cut})
                     # the progress display is part of the generators: it must not make them fail on any of these sources
                     _sized(t, entry, "bytes", data, None, k, {**case, "cut": cut}, progress=True)
                     _sized(t, entry, "bytesio", data, 7, k, {**case, "cut": cut}, progress=True)
@@ -544,7 +549,7 @@ def run(ctx):
         "transitions": tally.transitions,
         "programs": tally.programs,
         "exhaustive": True,
-        "bound": (f"every sequence of 1..{max_len} palette packets x prefix lengths {ks} cut at EVERY byte offset, for bytes, "
+        "bound": (f"every sequence of 1..{max_len} palette packets x prefix lengths {ks} cut at EVERY byte offset, for bytes (also wrapped in the library's own bytes subclass), "
                   "BytesIO with every read size (and with show_progress=True), a gzip file object, a BufferedReader over a 3-bytes-per-read raw stream and one over a device-like raw stream whose seek() always answers 0 (read sizes None, 7), read/write file handles as a producer leaves them (w+b, TemporaryFile, r+b appended, the generator object created before the writes / before the caller reads from the handle; a file that grows between two requests, measured part-way through a packet; 3..400 records written one write() each and not flushed; whole and cut by 1 or 9 bytes), file objects holding complete streams that the caller closes / rewinds after the first / the last packet (default read size, buffer-trim literal as shipped and rewritten to 0 and 17), and a scripted socket where the peer may close at every recv() choice point (also with show_progress=True, and as a message-preserving socket whose messages fit the read size, on the streams of <= 2 packets) "
                   "under every fragmentation; all byte strings of length <= 2; all strings of length <= "
                   f"{8 if ctx.quick else 9} over {{00,01,FF}}; both ccsds_generator and packet_generator(header-only definition); in a second interpreter started with -bb: every sequence of <= 2 packets cut at every offset through bytes, BytesIO, a closing socket and a definition's generator"),
